@@ -73,19 +73,18 @@ pub fn make_module() -> KMap {
                 let iterable = iterable.clone();
                 let iterator = ctx.vm.make_iterator(iterable)?;
 
-                {
-                    let mut list_data = l.data_mut();
-                    let (size_hint, _) = iterator.size_hint();
-                    list_data.reserve(size_hint);
-
-                    for value in iterator.map(collect_pair) {
-                        match value {
-                            KIteratorOutput::Value(value) => list_data.push(value.clone()),
-                            KIteratorOutput::Error(error) => return Err(error),
-                            _ => unreachable!(),
-                        }
+                // Collect the values before borrowing the list,
+                // the iterator might be reading from the list that's being extended.
+                let (size_hint, _) = iterator.size_hint();
+                let mut values = Vec::with_capacity(size_hint);
+                for value in iterator.map(collect_pair) {
+                    match value {
+                        KIteratorOutput::Value(value) => values.push(value),
+                        KIteratorOutput::Error(error) => return Err(error),
+                        _ => unreachable!(),
                     }
                 }
+                l.data_mut().extend(values);
 
                 Ok(KValue::List(l))
             }
@@ -401,7 +400,10 @@ pub fn make_module() -> KMap {
 
         match ctx.instance_and_args(is_list, expected_error)? {
             (KValue::List(a), [KValue::List(b)]) => {
-                std::mem::swap(a.data_mut().deref_mut(), b.data_mut().deref_mut());
+                // Swapping a list with itself is a no-op (and would otherwise be a double borrow)
+                if !a.is_same_instance(b) {
+                    std::mem::swap(a.data_mut().deref_mut(), b.data_mut().deref_mut());
+                }
                 Ok(KValue::Null)
             }
             (instance, args) => unexpected_args_after_instance(expected_error, instance, args),
